@@ -4,6 +4,7 @@ import SerfModel.Model.ERat
 import SerfModel.Gen.CoordFormula
 /-!
 C21 checker.  Ops: `dist <coordA> <coordB>` => `ns <d(a,b)> <d(b,a)>` | `panic-dim`;
+`conc <G> <iters> <pairs…>` => sequential estimates and the number of concurrent estimates that differ from them;
 `law <x> <y>` => bits of x+y, y+x, (x-y)², (y-x)² (the `CommLaws` facts, judged on the real float64 results).
 Model output: `Coordinate.DistanceTo` of the model in both directions (Float instance, bit for bit).
 Monitor (on the implementation's outputs, its own exact-arithmetic bookkeeping): for pairs in the property's
@@ -104,6 +105,25 @@ def step (s : Unit) (op : List String) (impl : String) : LineOut Unit :=
         | _, _ => "panic-dim"
       { state := s, model := some out, monitor := judge a b impl }
     | _, _ => { state := s, model := some "bad-op" }
+  | "conc" :: _g :: _iters :: cs =>
+    -- the model is sequential: concurrent estimates of a pair must all equal its sequential estimate
+    let rec pairs : List String → Option (List (Coordinate Float × Coordinate Float))
+      | [] => some []
+      | [_] => none
+      | a :: b :: rest =>
+        match parseCoord a, parseCoord b, pairs rest with
+        | some a, some b, some r => some ((a, b) :: r)
+        | _, _, _ => none
+    match pairs cs with
+    | none => { state := s, model := some "bad-op" }
+    | some ps =>
+      let ds := ps.map fun (a, b) => match distanceTo a b with | .ok x => toString x | .dimensionalityConflict => "panic-dim"
+      let out := s!"seq {",".intercalate ds} mismatches=0 first=-"
+      let m := match C20.field? impl "mismatches" with
+        | some "0" => none
+        | some n => some ("concurrent-estimate-differs", s!"{n} concurrent estimates differ from the sequential estimate of the same pair; first (pair:path:got:want) {(C20.field? impl "first").getD "?"} — DistanceTo is not a function of its arguments (shared state); schedule-dependent")
+        | none => some ("malformed", impl)
+      { state := s, model := some out, monitor := m }
   | ["law", x, y] =>
     match floatOfHex? x, floatOfHex? y with
     | some x, some y =>
